@@ -193,7 +193,8 @@ def check(prop, tier, runs=None, workers=None, wall=None):
             groups.setdefault(vsig(v), []).append((r, v))
     reported, known = [], []
     exit_code = 0
-    for sig, items in sorted(groups.items(), key=lambda kv: -len(kv[1]))[:8]:
+    shrink_left = [300 if tier == "quick" else 1500]  # candidate executions for the whole check
+    for sig, items in sorted(groups.items(), key=lambda kv: -len(kv[1]))[:5]:
         items.sort(key=lambda rv: len(rv[0].get("text") or ""))
         r, v = items[0]
         plan = r["plan"]
@@ -230,8 +231,9 @@ def check(prop, tier, runs=None, workers=None, wall=None):
             else:
                 det_fail.append(("violation-did-not-replay", r["seed"]))
             continue
-        budget = 250 if tier == "quick" else 600
+        budget = min(shrink_left[0], 150 if tier == "quick" else 600)
         small, used = shrink.shrink(mod, rec["plan"], shrink.sig_of(v), budget=budget)
+        shrink_left[0] -= used
         rec2 = shrink.run_plan(mod, small)
         v2 = [x for x in rec2["violations"] if shrink.sig_of(x) == shrink.sig_of(v)]
         if not v2:
